@@ -228,6 +228,7 @@ func c17Run(c *fw.Ctx, idx int) {
 	}
 	// wills: one dying session per tenant
 	wills := []sentMsg{}
+	dyingClients := []*kit.Client{}
 	for ti, t := range tenants {
 		topic := c17Topics[rg.Intn(len(c17Topics))]
 		m := sentMsg{tenant: t, topic: topic, tag: fmt.Sprintf("will-%d-%s", idx, t)}
@@ -242,11 +243,16 @@ func c17Run(c *fw.Ctx, idx int) {
 		}
 		defer d.Close()
 		wills = append(wills, m)
-		if !nodeFailure {
-			cl.StopPump()
-			cl.Quiesce()
-			cl.StartPump(3 * time.Millisecond)
+		dyingClients = append(dyingClients, d)
+	}
+	if !nodeFailure {
+		// all of them are connected (same client identifier "dying" in every tenant) before the first one is lost
+		cl.StopPump()
+		cl.Quiesce()
+		cl.StartPump(3 * time.Millisecond)
+		for _, d := range dyingClients {
 			d.Close()
+			time.Sleep(30 * time.Millisecond)
 		}
 	}
 	if nodeFailure {
